@@ -13,12 +13,16 @@ mod c17_bitwise;
 #[cfg(feature = "c17")]
 mod c17_boolean;
 #[cfg(feature = "c17")]
+mod c17_memcopy;
+#[cfg(feature = "c17")]
 mod c17_stackops;
 #[cfg(feature = "c17")]
 mod c17_uints;
 
 #[cfg(feature = "c18")]
 mod c18_bytecode;
+#[cfg(feature = "c18")]
+mod c18_memregion;
 #[cfg(feature = "c18")]
 mod c18_stack;
 
